@@ -273,3 +273,4 @@ def fidelity(tier, seed):
     return _fid.scalar_guard(['src/gm2_ffunctions.cpp', 'src/gm2_dilog.cpp'], ['src/gm2_numerics.cpp'], n_calls=25 if tier == 'quick' else 200, seed=seed)
 from contracts import c01_special  # noqa: real/complex dilogarithm, Clausen
 from contracts import c01_fps  # noqa: f_PS family definitions
+from contracts import ieee_finite as _ieee; _ieee.register('C01')  # noqa: IEEE finiteness on the whole domain
